@@ -185,11 +185,11 @@ pub fn run_case(ctx: &mut Ctx, fam: &str, _k: u64, r: &mut Rng) {
             let lead: Vec<usize> = base.dims[..base.dims.len() - rank_unbatched].to_vec();
             let rest: Vec<usize> = base.dims[base.dims.len() - rank_unbatched..].to_vec();
             let b: usize = lead.iter().product();
-            let n_rounds = r.range(2, 4);
+            let n_rounds = r.range(2, 5);
             // (kind, dims, fresh values?, tracked?, backward after?)
             let mut rounds: Vec<(&'static str, T<f64>, bool, bool)> = vec![("first", base.clone(), false, r.chance(1, 2))];
             for _ in 1..n_rounds {
-                let kind = *r.pick(&["same", "view", "view", "tracked-clone", "fresh"]);
+                let kind = *r.pick(&["same", "view", "view", "tracked-clone", "fresh", "fresh"]);
                 let t = match kind {
                     "view" => {
                         let mut cands: Vec<Vec<usize>> = vec![[&[1, b][..], &rest].concat(), [&[b][..], &rest].concat()];
@@ -206,7 +206,14 @@ pub fn run_case(ctx: &mut Ctx, fam: &str, _k: u64, r: &mut Rng) {
                     }
                     "fresh" => {
                         let mut s2 = spec.clone();
-                        s2.in_dims = [&[r.range(1, 3)][..], &rest].concat();
+                        let mut rest2 = rest.clone();
+                        // a convolutional stack takes images of any size: larger, then smaller down to a single row or
+                        // column of output positions
+                        if let LSpec::Conv { filters, .. } = &spec.layers[0] {
+                            rest2[1] = filters.2 + *r.pick(&[0, 0, 1, 2, 4]);
+                            rest2[2] = filters.3 + *r.pick(&[0, 0, 1, 2, 4]);
+                        }
+                        s2.in_dims = [&[r.range(1, 3)][..], &rest2].concat();
                         gen_input(r, &s2, false)
                     }
                     _ => base.clone(),
